@@ -183,7 +183,26 @@ func judgeSegment(c *core.Ctx, ctxName, src, out, want string, raw bool) {
 
 func init() {
 	var runIn func(c *core.Ctx, l string, ctxs []litContext)
-	runLit := func(c *core.Ctx, l string) { runIn(c, l, stringContexts) }
+	runLit := func(c *core.Ctx, l string) {
+		if c.Section == "literal-len5" {
+			// five-atom literals (thorough tier): a window of eight contexts that moves with the literal, so that the
+			// millions of literals stay within what the run can keep track of
+			h := 0
+			for _, b := range []byte(l) {
+				h = h*31 + int(b)
+			}
+			if h < 0 {
+				h = -h
+			}
+			var window []litContext
+			for k := 0; k < 8; k++ {
+				window = append(window, stringContexts[(h+k*5)%len(stringContexts)])
+			}
+			runIn(c, l, window)
+			return
+		}
+		runIn(c, l, stringContexts)
+	}
 	runIn = func(c *core.Ctx, l string, ctxs []litContext) {
 		for qi, q := range []byte{'"', '\''} {
 			if !model.CanQuote(l, q) {
